@@ -9,14 +9,16 @@ from d42 import fake, optional, represent, schema, substitute, validate
 from d42.declaration.types import DictSchema
 from d42.utils import from_native, make_required
 
-MODULE = "D42.Props.C07"
+MODULE = "D42.Props.C07All"
 THEOREMS = ["history_appends", "entries_stable", "observations_stable", "result_stable", "hstep_appends",
-            "hstep_raise_unchanged", "hstep_observers_pure"]
-FILES = ["D42/Model/History.lean", "D42/Props/C07.lean"]
+            "hstep_raise_unchanged", "hstep_observers_pure",
+            "writes_are_local", "stores_are_fresh", "Frame.frame", "Frame.frame_many"]
+FILES = ["D42/Model/History.lean", "D42/Props/C07.lean",
+         "D42/Gen/Effects.lean", "D42/Props/C07Effects.lean", "D42/Props/C07All.lean"]
 
 EVIDENCE = dict(
     level="proof",
-    checker_cmd="lake build D42.Props.C07 d42model && lake env lean <#print axioms audit>",
+    checker_cmd="lake build D42.Props.C07All d42model && lake env lean <#print axioms audit>",
     trusted=["Lean kernel; standard axioms", "the model is purely functional, so immutability holds of it by construction; the "
              "property is about Python aliasing and is decided as a refinement: the implementation's pool must equal the model's "
              "append-only pool after every history, and every entry must keep its creation-time observation"],
@@ -467,6 +469,60 @@ def directed_aliasing(ctx):
                                   how=name, container_after=repr(c)[:200], before=repr(before)[:400], after=repr(after)[:400])
 
 
+def directed_option_purity(ctx):
+    """an operation called with OPTIONS (represent with an indent, validate with a caller's path) must not change what the
+    same operation answers without them, or with other options, on the same schema object afterwards — compared with the
+    answers of an independent rebuild that was never given options"""
+    from d42 import represent
+    from th import PathHolder
+    makers = [lambda: schema.int.min(1), lambda: schema.list([schema.int, schema.str("a")]),
+              lambda: schema.dict({"a": schema.list(schema.int), optional("b"): schema.dict({"c": schema.str})}),
+              lambda: schema.any(schema.int, schema.dict({"k": schema.none})), lambda: schema.list(schema.dict({"x": schema.int})).len(1, 3),
+              lambda: schema.str.regex("a+")]
+    for mk in makers:
+        for order in ((8, 0, 4, 0), (0, 8, 0), (4, 4, 0, 8)):
+            try:
+                s, fresh = mk(), mk()
+            except Exception:  # noqa: BLE001
+                continue
+            ctx.count("option_purity_sequences")
+            for ind in order:
+                got = represent(s, indent=ind)
+                want = represent(mk(), indent=ind)
+                if got != want:
+                    ctx.violation("represent(schema, indent=%d) answers differently after the same schema was rendered with other "
+                                  "options" % ind, schema=want, got=got, order=repr(order))
+                    break
+            if repr(s) != repr(fresh) or represent(s) != represent(fresh):
+                ctx.violation("repr of a schema changed after it was rendered with options", schema=repr(fresh), got=repr(s),
+                              order=repr(order))
+            try:
+                schema_err = None
+                s.len("x") if hasattr(s, "len") else s.min("x")
+            except Exception as e:  # noqa: BLE001
+                schema_err = str(e)
+            try:
+                fresh_err = None
+                fresh.len("x") if hasattr(fresh, "len") else fresh.min("x")
+            except Exception as e:  # noqa: BLE001
+                fresh_err = str(e)
+            if schema_err != fresh_err:
+                ctx.violation("the message of a raising refinement depends on how the receiver was rendered before",
+                              first=fresh_err, second=schema_err)
+        # validate with a caller-supplied path, then without, then with another
+        try:
+            s = mk()
+        except Exception:  # noqa: BLE001
+            continue
+        for v in (None, {"a": ["x"], "b": {"c": 1}}, [1, 2], "b"):
+            base = [repr(e) for e in validate(mk(), v).get_errors()]
+            validate(s, v, path=PathHolder("body")["k"])
+            again = [repr(e) for e in validate(s, v).get_errors()]
+            if again != base:
+                ctx.violation("validate(schema, value) answers differently after a call with a caller-supplied path",
+                              schema=repr(mk()), value=repr(v), first=base[:3], second=again[:3])
+
+
 def directed_fault_then_repeat(ctx):
     """an operation that succeeds; the same operation failing half-way on the SAME (temporarily broken) container object;
     the container repaired in place; the first operation repeated — results must agree (anything remembered about the
@@ -598,6 +654,10 @@ def model_history(ctx, rnd, n):
 
 
 def run(ctx):
+    from .. import extract_effects
+    ok, msg = extract_effects.run()
+    if not ok:
+        ctx.breakage("translation", "effect extraction failed: " + msg)
     runner.prove(ctx, MODULE, THEOREMS, FILES)
     directed_aliasing(ctx)
     directed_value_purity(ctx)
@@ -606,6 +666,7 @@ def run(ctx):
     directed_scale_purity(ctx)
     order_independence(ctx)
     directed_fault_then_repeat(ctx)
+    directed_option_purity(ctx)
     steps = ctx.n(30, 100)
     for h in range(ctx.n(25, 80)):
         H = History(ctx)
